@@ -207,6 +207,11 @@ def poison_sites(K):
         for name, path in table.items():
             sites.append({"kind": "image", "platform": platform, "name": name, "bad": "/" + path, "good": path})
     sites.append({"kind": "image-unref", "platform": "nowhere"})
+    arch = K["tree"]["arch"]
+    if arch in K["images"] and arch in K["tree"]["platforms"]:
+        # the tree arch has an image table but is dropped from the platform list
+        sites.append({"kind": "sec", "sec": "tree", "field": "platforms", "bad": [p for p in K["tree"]["platforms"] if p != arch],
+                      "good": list(K["tree"]["platforms"])})
     if K["stage2"]["mainimage"]:
         sites.append({"kind": "stage2", "field": "mainimage", "bad": "/" + K["stage2"]["mainimage"], "good": K["stage2"]["mainimage"]})
     else:
@@ -253,7 +258,8 @@ def poison_ops(site, slot=0):
 # ---- discinfo ---------------------------------------------------------------------------------------
 def gen_discinfo(rng):
     ts = pick(rng, [1410855216.123456, 1.0, 123456.75, -5.5, 1e-07, 1.7976931348623157e+308, 1234567890.0, 0.1 + 0.2])
-    return {"timestamp": ts, "description": pick(rng, ["Fedora 20", "Red Hat Enterprise Linux 7.0", "ünï côde", "a", "it's \"quoted\" inside", "x" * 80]),
+    return {"timestamp": ts, "description": pick(rng, ["Fedora 20", "Red Hat Enterprise Linux 7.0", "ünï côde", "a", "it's \"quoted\" inside", "x" * 80,
+                                      "#1 Linux 20", "; semi first", "ALL", "1,2,3", "0.5", "[general]", "x = y"]),
             "arch": pick(rng, pools.ARCHES + ["src"]),
             "disc_numbers": ["ALL"] if rng.random() < 0.4 else sorted(subset(rng, [1, 2, 3, 4, 10, 11], 1, 4))}
 
